@@ -22,4 +22,17 @@ var props = []Prop{
 			{Name: "hist", Engine: "hist", Quick: 4000, Thorough: 400000, Timeout: 30 * time.Second},
 		},
 	},
+	{
+		ID:    "C19",
+		Level: "fault_enumeration",
+		Rule: "Scenario = (output description generated from the documented grammar incl. every ifExists value and 21 kinds of invalid member at a drawn position, produced by evaluating generated arr.ai source; pre-existing simulated disk state drawn from the same name pool so collisions are frequent). arrai.OutputValue runs against the simulated disk; the resulting full-disk snapshot and the operation log are compared with a reference model of docs/docs/cli/eval.md (reject => failure and byte-identical disk; valid => success and exactly the described tree; nothing outside PATH mutated). For valid scenarios the run is repeated once per disk operation of the fault-free run with that operation failing (mkdir/create/write-with-prefix/sync/close/removeall/stat): success may only be reported with the described tree. Non-trivial = more than 2 disk operations; distinct = distinct (model verdict, ifExists contexts hit, number of top-level entries).",
+		Components: map[string][]string{"real": {"pkg/arrai/out.go (OutputValue and below)", "syntax (evaluation of the description source)", "rel"}, "stub": {"disk: aaverif/simfs (in-memory POSIX-like afero.Fs with operation log and fault injection)"}},
+		Assume:     []string{"simfs reproduces POSIX semantics for the operations out.go uses (Stat, Mkdir, Create, Write, Sync, Close, RemoveAll)", "documentation docs/docs/cli/eval.md is the specification; where it is silent (file/dir kind collisions, entry names that are not one path element, invalid content under an ignored existing entry) several outcomes are accepted"},
+		Batches: []Batch{
+			{Name: "dir", Engine: "outdir", Quick: 3000, Thorough: 300000, Knobs: map[string]string{"invalid": "some"}, Timeout: 60 * time.Second},
+			{Name: "dir-faults", Engine: "outdir", Quick: 400, Thorough: 30000, Knobs: map[string]string{"invalid": "none", "faults": "enum"}, Timeout: 60 * time.Second},
+			{Name: "dir-badnames", Engine: "outdir", Quick: 500, Thorough: 30000, Knobs: map[string]string{"invalid": "none", "badnames": "on"}, Timeout: 60 * time.Second},
+			{Name: "file", Engine: "outdir", Quick: 400, Thorough: 20000, Knobs: map[string]string{"mode": "file", "invalid": "some", "faults": "enum"}, Timeout: 60 * time.Second},
+		},
+	},
 }
